@@ -36,7 +36,7 @@ CLAIMED = {
  "C09": ("exploration", "keeper", "property-based stateful testing of the real KeyKeeper against a reference secure-channel host; snapshots at poll boundaries compared with a function of the latest document",
          "Histories of status documents (1.0/2.0, flips, rule replacement/removal, rotation) and per-step host failures served to the real KeyKeeper (5 ms polls); after every stable step the public getters and the redirect-policy trace must equal the reference interpretation of the latest document; failed status polls change nothing.",
          "Trusts the reference host (DESIGN.md A.3) and the feature-guarded redirect-policy trace; 'enabled without authorizationRules' is counted as under-specified.", "4 C09"),
- "C10": ("exploration", "keeper", "schedule exploration with an owned-schedule executor (hand-polled futures on a current-thread runtime) + verification of every emitted MAC at the mock host",
+ "C10": ("exploration", "keeper", "schedule exploration with an owned-schedule executor (hand-polled futures on a current-thread runtime), a multi-thread stress engine and key-keeper histories with a continuous signer + verification of every emitted MAC at the mock host under the key registered for the announced id",
          "Interleavings of the four signing call sites with update_key / clear_key generated as schedule vectors; every signed request the host receives must verify under the key registered for the key id it announces.",
          "Only interleavings expressible as polls of operation futures and actor drains on one thread; multi-core effects are not modelled (the shared state is message passing).", "4 C10"),
  "C11": ("exploration", "e2e", "property-based history testing: reference multiset of denials vs the published failed-authorization summary (getter and status.json)",
@@ -98,7 +98,7 @@ m = {
    "add_only": True,
  },
  "engines": [
-   {"name": "e2e", "path": "harness/src/bin/e2e.rs", "serves_properties": ["C01", "C03", "C04", "C05", "C07", "C11", "C13", "C14", "C15"], "kind_free_text": "real ProxyServer in a private network+mount namespace, mock metadata hosts on the real addresses, raw HTTP client with stand-in attribution records; proptest-generated cases"},
+   {"name": "e2e", "path": "harness/src/bin/e2e.rs", "serves_properties": ["C01", "C03", "C04", "C05", "C07", "C10", "C11", "C13", "C14", "C15"], "kind_free_text": "real ProxyServer in a private network+mount namespace, mock metadata hosts on the real addresses, raw HTTP client with stand-in attribution records; proptest-generated cases"},
    {"name": "crash", "path": "harness/src/bin/crash.rs", "serves_properties": ["C08", "C12"], "kind_free_text": "parent = reference host + strace orchestration; child = real KeyKeeper on a current-thread runtime; SIGKILL injected at the N-th syscall"},
    {"name": "ebpfsim", "path": "harness/src/bin/ebpfsim.rs", "serves_properties": ["C06"], "kind_free_text": "unmodified linux-ebpf/ebpf_cgroup.c compiled with clang against shim headers + C model of helpers/maps (harness/build.rs, harness/csrc), driven from Rust"},
    {"name": "setuprig", "path": "harness/src/bin/setuprig.rs", "serves_properties": ["C17"], "kind_free_text": "real proxy_agent_setup binary chroot'ed into overlayfs(lower=/) in a private mount namespace + file-map model"},
